@@ -54,6 +54,11 @@ prop("C03",
          H("txfile.VerifProgStore", "overwrite log focus: overwrite / read-only access / Flush with WALLimit=2 (automatic checkpoints), 2 committed transactions",
            "ops {overwrite, read, flush}, 2x2 ops (thorough: 3 transactions; and the 7-op set)", quick={"params": {"walops": 2, "wallimit": 2, "ntx": 2, "nops": 2, "nops2": 2}},
            thorough={"params": {"walops": 2, "wallimit": 2, "ntx": 3, "nops": 2, "nops2": 2}, "max_paths": 300000, "budget": "1500s"}),
+         H("txfile.VerifProgStore", "overwrite log with explicit and automatic checkpoints: {overwrite, partial write, read, Flush, CheckpointWAL}, one committed transaction of 1 operation, then one of 3 (WALLimit=1); native replay on a slow disk (writer lags behind)",
+           "walops=3 wallimit=1 nops=1 nops2=3 (thorough: nops=2)", quick={"params": {"walops": 3, "wallimit": 1, "ntx": 2, "nops": 1, "nops2": 3}},
+           thorough={"params": {"walops": 3, "wallimit": 1, "ntx": 2, "nops": 2, "nops2": 3}, "max_paths": 400000, "budget": "1500s"}),
+         H("txfile.VerifProgStore", "same with WALLimit=2", "walops=3 wallimit=2", quick={"params": {"walops": 3, "wallimit": 2, "ntx": 2, "nops": 1, "nops2": 3}},
+           thorough={"params": {"walops": 3, "wallimit": 2, "ntx": 2, "nops": 2, "nops2": 3}, "max_paths": 400000, "budget": "1500s"}),
          H("txfile.VerifProgStore", "same with the 7-operation overwrite-log set and 3 committed pages", "walops=1", tiers=("thorough",),
            thorough={"params": {"walops": 1, "wallimit": 2, "setup": 3, "ntx": 2, "nops": 2, "nops2": 2}, "max_paths": 300000, "budget": "1500s"}),
          H("txfile.VerifFault", "transactions that follow a failed one read and write correctly; a Commit that returns nil has written every page", "nops=1",
